@@ -36,7 +36,7 @@ func randRunFan(r *rand.Rand, id string, allowCmd bool) RunFan {
 	rf.Spec.Alg = []AlgSpec{{T: "direct"}, {T: "rate", M: 10}, DefaultPid(200)}[r.Intn(3)]
 	rf.Quant = []int{16, 32, 51, 64}[r.Intn(4)]
 	rf.Theta = r.Intn(120)
-	rf.Pwm0 = r.Intn(256)
+	rf.Pwm0 = []int{r.Intn(256), r.Intn(256), 255, 0}[r.Intn(4)] // incl. a fan that was at full speed / stopped
 	rf.Mode0 = []int{0, 1, 2, 2, 3, 5}[r.Intn(6)]
 	rf.Rest = randRest(r)
 	if rf.Spec.Kind == "hwmon" && r.Intn(2) == 0 {
@@ -354,6 +354,9 @@ func runC15History(t *testing.T, rec *Recorder, r *rand.Rand) {
 				m[v] = v
 			}
 			m[255] = 255
+			if r.Intn(4) == 0 {
+				m = map[int]int{255: 255} // a single supported value: the measured RPM curve has one sample
+			}
 			rf.Spec.CfgMap = m
 		}
 		if rf.Spec.Kind == "hwmon" && r.Intn(3) == 0 { // minPwm and maxPwm configured
@@ -454,6 +457,13 @@ func runC10RunScenario(rec *Recorder, r *rand.Rand) {
 	rf := RunFan{ID: "f1", CurveErrAt: -1, Rest: [3]string{"ok", "ok", "ok"}, Pwm0: r.Intn(256), Mode0: 2, Quant: 1}
 	rf.Spec = FanSpec{Kind: "hwmon", HasRpm: true, HasMode: r.Intn(3) > 0, NeverStop: true, N: win,
 		CfgMin: ip(mn), CfgMax: ip(mx), Alg: []AlgSpec{{T: "direct"}, {T: "rate", M: 10}, DefaultPid(200)}[r.Intn(3)]}
+	lateRpm := false
+	if r.Intn(4) == 0 {
+		// a file fan (limits 0..255) whose RPM file is unreadable for a moment when fan2go starts (its producer starts later)
+		rf.Spec = FanSpec{Kind: "file", HasRpm: true, NeverStop: true, N: win, Alg: AlgSpec{T: "direct"}}
+		mn, mx = 0, 255
+		lateRpm = r.Intn(2) == 0
+	}
 	m := map[int]int{}
 	for v := 0; v <= 255; v++ {
 		m[v] = v
@@ -466,6 +476,14 @@ func runC10RunScenario(rec *Recorder, r *rand.Rand) {
 	}
 	cfg := RunCfg{Parallel: true, Dir: dir, Fans: []RunFan{rf}, Window: win, RpmPollMs: []int{200, 1000}[r.Intn(2)], TickMs: 200}
 	cv := []int{0, 0, 5, 60}[r.Intn(4)]
+	if rf.Spec.Kind == "file" {
+		cv = 200 + r.Intn(50) // few steps up to 255
+		rf.Theta = 1000
+		if r.Intn(2) == 0 {
+			rf.Theta = 200 + r.Intn(60)
+		}
+		cfg.Fans[0].Theta = rf.Theta
+	}
 	cfg.CurveValue = func(n int) int { return cv }
 	// store the characterisation first (same database), with a fan that turns everywhere
 	{
@@ -491,6 +509,9 @@ func runC10RunScenario(rec *Recorder, r *rand.Rand) {
 	defer h.Close(false)
 	// the fan was spinning at some speed before (prior RPM average), or never spun
 	h.fs["f1"].fan.SetRpmAvg([]float64{0, 0, 1, 20, 800, 3000, 20000}[r.Intn(7)])
+	if lateRpm {
+		h.ReadFault("f1.rpm", 2+r.Intn(3)) // the first reads of the RPM file fail
+	}
 	ctx, cancel := context.WithCancel(context.Background())
 	defer cancel()
 	var once sync.Once
@@ -508,7 +529,11 @@ func runC10RunScenario(rec *Recorder, r *rand.Rand) {
 	done := make(chan struct{})
 	go func() {
 		// enough virtual time for the whole ladder: (max-min+2) steps of at most (12n+2) polls
-		budget := time.Duration((mx-mn+4)*(12*win+4)*cfg.RpmPollMs) * time.Millisecond
+		steps := mx - mn + 4
+		if rf.Spec.Kind == "file" {
+			steps = 60
+		}
+		budget := time.Duration(steps*(12*win+4)*cfg.RpmPollMs) * time.Millisecond
 		select {
 		case <-time.After(budget + 10*time.Second):
 			stop("budget")
